@@ -35,7 +35,30 @@ def errClass (m : String) : String :=
   else if has "locked" then "locked"
   else "other-error"
 
+/-- sub-stream `fuse`: one refresh of the mount's snapshot list after a step of another process.
+  step <kind> <changed 0|1>      what the other process did (backup newer/older/equal time, tag, forget)
+  ops (S|I)*                      the mount's snapshot / index listings during this refresh
+  read ok <listed> <unreadable> <classes> | read error <hex> -/
+def handleFuse (c : Case) : Verdict :=
+  let step := match c.find "step" with | some r => r.getD 1 "?" | none => "?"
+  let changed := match c.find "step" with | some r => r.getD 2 "0" == "1" | none => false
+  let ops : List ROp := match c.find "ops" with
+    | some r => (r.toList.drop 1).filterMap fun t =>
+        if t == "S" then some .listSnapshots else if t == "I" then some .listIndex else none
+    | none => []
+  match c.find "read" with
+  | none => .differ "protocol" "no-read-record"
+  | some r =>
+    if r.getD 1 "" != "ok" then
+      .specfalse s!"C14:mount:snapshots-dir-unreadable-after-{step}" ((unhexStr (r.getD 2 "-")).getD "?")
+    else if natOf (r.getD 3 "0") > 0 then
+      .specfalse s!"C14:mount:listed-snapshot-unreadable-after-{step}" s!"{r.getD 3 "0"} of {r.getD 2 "0"} listed snapshots cannot be read: {r.getD 4 "-"}"
+    else if changed && !refreshReloads ops then
+      .differ "fuse-refresh" s!"snapshot set changed ({step}) but the index is not reloaded after the listing: ops={ops.map fun o => if o == .listSnapshots then "S" else "I"}"
+    else .agree (changed && step != "initial") (labelsOf c)
+
 def handleC14 (c : Case) : Verdict :=
+  if c.stream == "fuse" then handleFuse c else
   let r0 := parseRepo c
   let tagged := parseEvents c
   let g := tagged.map (·.2)
@@ -58,7 +81,9 @@ def handleC14 (c : Case) : Verdict :=
       .differ "file-name-reused" ""
     else
       let procs := (tagged.map (·.1)).eraseDups
-      let badPhase := procs.find? fun p => !snapOnlyLast ((tagged.filter (·.1 == p)).map (·.2))
+      -- a `backup` writes one snapshot, last; `copy` (proc "wc") writes the snapshots of a batch
+      -- after the batch's flush, possibly several batches: only the global guards constrain it
+      let badPhase := procs.find? fun p => p != "wc" && !snapOnlyLast ((tagged.filter (·.1 == p)).map (·.2))
       match badPhase with
       | some p => .differ "writer-phase-structure" s!"{p}: snapshot save is not its last operation"
       | none =>
